@@ -79,8 +79,14 @@ func ruleC15d(c *Ctx) []*report.Result {
 		return []*report.Result{r}
 	}
 	pos := c.P.Pos(fn.Pos())
-	if len(fn.Blocks) != 1 {
-		r.Fail("rfmt.HelperForErrorf / single path", pos, "function is expected to be straight-line code", nil, "")
+	nonRecover := 0
+	for _, b := range fn.Blocks {
+		if b != fn.Recover {
+			nonRecover++
+		}
+	}
+	if nonRecover != 1 {
+		r.Undecide("HelperForErrorf is not straight-line code: the order rule does not apply to this shape")
 		return []*report.Result{r}
 	}
 	idx := map[string]int{}
@@ -107,6 +113,10 @@ func ruleC15d(c *Ctx) []*report.Result {
 				take = x
 			case "free":
 				idx["free"] = i
+			}
+		case *ssa.Defer:
+			if f := x.Common().StaticCallee(); f != nil && f.Name() == "free" {
+				idx["free"] = 1 << 20 // runs at return
 			}
 		case *ssa.Store:
 			if fa, ok := x.Addr.(*ssa.FieldAddr); ok && fieldName(fa) == "wrapErrs" && fa.X == np {
